@@ -8,7 +8,7 @@ import random
 import shutil
 import tempfile
 
-from lib import astcodec, doccases, docgen, docprops, lexcorr, parsecorr, render
+from lib import astcodec, corefrag, doccases, docgen, docprops, lexcorr, parsecorr, render
 
 LEVEL = "proof"
 DRIVERS = ["syn"]
@@ -187,6 +187,7 @@ def run(ctx):
                                 ctx.property_failure({"text": t, "pipeline": name, "expected_zones": want, "observed": got,
                                                       "stream": "offset-shift", "nfd_sequences_before_zone": k},
                                                      f"{name}: literal zones differ from the input's (text before the zone changes length under NFC)")
+        corefrag.runz(ctx, ctx.scale(200, 4000), hm)
         n = ctx.scale(450, 9000)
         oks = doccases.ok_string_set(ctx)
         for i in range(n):
